@@ -27,6 +27,7 @@ func finish(t vstat.Fataler, tc *tcase, res result) {
 	cls := append(append([]string{}, res.classes...), kf...)
 	vstat.Class("probes", int64(res.probes))
 	vstat.Class("probes:TX", int64(res.tx))
+	vstat.Class("ops:skipped-foreign-circuit-id", int64(res.skipped))
 	vstat.Case(res.nt, vstat.Hash(jsonOf(tc)), func() any {
 		return map[string]any{"case": tc, "log": res.log}
 	}, cls...)
@@ -77,6 +78,34 @@ func TestPropAfterDecline(t *testing.T) {
 // Histories built around lease expiry, probes before and after the cleanup tick.
 func TestPropAfterExpiry(t *testing.T) {
 	propFlavour(t, flavour{name: "after-expiry", access: allAccess, event: "expiry"}, 300, 8000)
+}
+
+var cidAccess = []string{"relay82", "relay82", "relay82", "relay82", "relay82", "relay82", "l2opt82"}
+
+// Replacement CPE: a new MAC appears on the circuit (same option-82 circuit-id) of a client that holds a lease;
+// afterwards every appearance of the client (old MAC, new MAC, the circuit-id) is probed.
+func TestPropCpeSwap(t *testing.T) {
+	propFlavour(t, flavour{name: "cpe-swap", access: cidAccess, event: "swap"}, 400, 6000)
+}
+
+// The same device moves to another circuit (same MAC, new circuit-id); old and new circuit-id are probed.
+func TestPropCircuitMove(t *testing.T) {
+	propFlavour(t, flavour{name: "circuit-move", access: cidAccess, event: "move"}, 400, 6000)
+}
+
+// The same device reaches the server in another way (direct -> relayed with option 82, relayed -> direct, -> VLAN ...).
+func TestPropReshape(t *testing.T) {
+	propFlavour(t, flavour{name: "reshape", access: allAccess, event: "reshape"}, 400, 6000)
+}
+
+// The lease runs out and the client DISCOVERs again before the cleanup tick (the lease is retired on the spot).
+func TestPropRetire(t *testing.T) {
+	propFlavour(t, flavour{name: "retire", access: allAccess, event: "retire"}, 400, 6000)
+}
+
+// RELEASE of an address that was only offered.
+func TestPropReleaseOffered(t *testing.T) {
+	propFlavour(t, flavour{name: "release-offered", access: allAccess, event: "release-offered"}, 400, 6000)
 }
 
 // Free mixture of everything.
